@@ -22,21 +22,21 @@ private theorem dec_natCast_le (a b : Nat) : decide ((a : Int) ≤ (b : Int)) = 
 /-! ### immunity cache (C12, C13) -/
 
 theorem chunk_leaves :
-    Gen.chunkExceeded_leaves = ["len(chunk.items) : Int", "chunk.config.maxNumItems : Int", "chunk.numBytes : Int", "chunk.config.maxNumBytes : Int"] ∧
-    Gen.chunkMaxNumItems_leaves = ["config.NumChunks : Int", "config.MaxNumItems : Int"] ∧
-    Gen.chunkMaxNumBytes_leaves = ["config.NumChunks : Int", "config.MaxNumBytes : Int"] ∧
+    Gen.chunkExceeded_leaves = ["chunk.config.maxNumBytes : Int", "chunk.config.maxNumItems : Int", "chunk.numBytes : Int", "len(chunk.items) : Int"] ∧
+    Gen.chunkMaxNumItems_leaves = ["config.MaxNumItems : Int", "config.NumChunks : Int"] ∧
+    Gen.chunkMaxNumBytes_leaves = ["config.MaxNumBytes : Int", "config.NumChunks : Int"] ∧
     Gen.chunkNumItemsToEvict_leaves = ["config.NumChunks : Int", "config.NumItemsToPreemptivelyEvict : Int"] := ⟨rfl, rfl, rfl, rfl⟩
 
 /-- `immunityChunk.isCapacityExceededNoLock` is the model's `Chunk.exceeded` (capacity REACHED, not exceeded: `≥`) -/
 theorem chunkExceeded_eq (cfg : Immunity.ChunkCfg) (c : Immunity.Chunk) :
-    c.exceeded cfg = Gen.chunkExceeded c.items.length cfg.maxNumItems c.numBytes cfg.maxNumBytes := by
+    c.exceeded cfg = Gen.chunkExceeded (len_chunk_items := c.items.length) (chunk_config_maxNumItems := cfg.maxNumItems) (chunk_numBytes := c.numBytes) (chunk_config_maxNumBytes := cfg.maxNumBytes) := by
   simp only [Immunity.Chunk.exceeded, Gen.chunkExceeded, ge_iff_le, dec_natCast_le]
 
 /-- `CacheConfig.getChunkConfig`: every per-chunk limit is the cache limit divided (rounding down) by max(NumChunks, 1) -/
 theorem chunkCfg_eq (c : Immunity.Config) :
-    ((c.chunkCfg.maxNumItems : Nat) : Int) = Gen.chunkMaxNumItems c.numChunks c.maxNumItems ∧
-    ((c.chunkCfg.maxNumBytes : Nat) : Int) = Gen.chunkMaxNumBytes c.numChunks c.maxNumBytes ∧
-    ((c.chunkCfg.numToEvict : Nat) : Int) = Gen.chunkNumItemsToEvict c.numChunks c.numItemsToEvict := by
+    ((c.chunkCfg.maxNumItems : Nat) : Int) = Gen.chunkMaxNumItems (config_NumChunks := c.numChunks) (config_MaxNumItems := c.maxNumItems) ∧
+    ((c.chunkCfg.maxNumBytes : Nat) : Int) = Gen.chunkMaxNumBytes (config_NumChunks := c.numChunks) (config_MaxNumBytes := c.maxNumBytes) ∧
+    ((c.chunkCfg.numToEvict : Nat) : Int) = Gen.chunkNumItemsToEvict (config_NumChunks := c.numChunks) (config_NumItemsToPreemptivelyEvict := c.numItemsToEvict) := by
   have hmax : ((max c.numChunks 1 : Nat) : Int) = max (c.numChunks : Int) 1 := by omega
   refine ⟨?_, ?_, ?_⟩ <;>
     simp only [Immunity.Config.chunkCfg, Gen.chunkMaxNumItems, Gen.chunkMaxNumBytes, Gen.chunkNumItemsToEvict, Int.natCast_ediv, hmax]
